@@ -9,6 +9,28 @@ COMMON_NOTE = ("Trusted: Coq 8.16.1 kernel; extraction with ExtrOcamlBasic only 
                "the radix-tree library, flock(2), goroutine scheduling. See DESIGN.md section 5.")
 
 CHECKS = {
+ 'C13': dict(text="Proof (Coq), for every checksum function with values below 2^32: the transcribed V1/V2 decoder applied to the "
+                  "documented encoding of any message within the writer's guards, anywhere in a file, returns that message and the next "
+                  "position; a whole encoded log scans back to exactly its messages at the prefix-sum positions; encoded record and "
+                  "index-item lengths equal Size/Params.Size; conversely whatever the V2 decoder accepts is byte for byte the documented "
+                  "encoding of what it returns, and the encoding is injective. Stat of the log-level model counts the index items that "
+                  "the invariant ties to the records. The layout is tied to /repo byte for byte: files written by message.Writer / "
+                  "index.Write for random messages (lengths 0..300, int64 extremes, both versions, four index layouts) must equal the Coq "
+                  "encoder's bytes, and encoder-written files must be read back identically by the file and the mmap reader; Stat vs live "
+                  "count and vs the sum of file sizes after every op of seeded histories.",
+             ref='6/C13', technique='Coq proof (round trip, soundness, sizes of the byte layouts) + byte-level differential correspondence'),
+ 'C14': dict(text="Partial. Proved (Coq): anything the V2 reader returns from an arbitrary byte string is a complete CRC- and "
+                  "trailer-consistent record really present at that position, so a result differing from the published message requires the "
+                  "damaged bytes to be a full valid encoding of another message (the residual, unproved premise is that in-place damage does "
+                  "not forge one - a CRC-32C collision); the answer of a read depends only on the bytes of the record read, so calls answered "
+                  "from untouched bytes are unchanged; length fields are guarded by the 64 MiB bound and slices never exceed the file. Tied "
+                  "to /repo by a sweep over multi-segment V2 logs with one log file damaged (bit flips, 1-8 byte overwrites, every "
+                  "truncation, zero tails; index intact): every Consume/Get/GetByKey/ConsumeByKey/GetByTime result is compared with the "
+                  "byte-level reader model (BytesLog.v) and checked: no panic, no message differing from the published one, error when "
+                  "the answer would include an overwritten record, unchanged answers for calls independent of the damaged file.",
+             ref='6/C14', technique='Coq proof (decoder soundness/extensionality) + exhaustive damage sweep against the byte-level reader model',
+             note="Residual premise crc_detects (no CRC-32C collision produced by the damage) is not proved; memory use of the Go "
+                  "runtime is not modelled. " + COMMON_NOTE),
  'C18': dict(text="Partial. Proved (Coq) for the transition system of Notify.v - Wait/Set/Close cut at every channel operation and "
                   "atomic access, any number of threads, every interleaving, by an invariant preserved by every step: token discipline "
                   "(no send on a closed or full barrier, no double close), no lost wake-up (a waiter parked on an open channel has an offset "
